@@ -97,6 +97,10 @@ def _run_model(case, ctx):
     # a few pressures shared by every case (different isotherms of one model evaluated at exactly the same pressure in one process)
     wlo, whi = GM.pressure_window(name, P)
     ps = sorted(set(list(ps) + [x for x in (0.01, 0.05, 0.3, 0.5, 1.0) if wlo < x < whi * 0.98]))
+    if name in ("BET", "GAB"):
+        # the last percent before the pole (N p or K p = 1): still inside the validity range
+        pole = 1.0 / (P["N"] if name == "BET" else P["K"])
+        ps = sorted(set(ps + [pole * 0.992, pole * 0.997]))
     # ... and another isotherm of the same model (other parameters) has just been evaluated at these pressures
     try:
         other = GM.make_model(name, GM.random_params(name, r, typed=False), temperature=T)
@@ -298,6 +302,10 @@ def _run_point(case, ctx):
             ls[j] = 0.0
     else:
         ls = gen.increasing(r, n, 0.01, 20.0)
+    if case["seed"] % 5 == 1:
+        # whole-number loadings delivered as integers (molecule counts of a simulation)
+        ls = [int(k) for k in numpy.cumsum([r.randint(1, 4) for _ in range(n)])]
+        ctx.count("point_shapes", "integer-typed-loadings")
     two = r.random() < 0.3 and n >= 4
     pp, ll, bb = list(ps), list(ls), [0] * n
     origin = case["seed"] % 4 == 0
